@@ -69,7 +69,7 @@ CLAIMED = {
     text='Bounded SMT verification of device-count invariance: the real update jaxpr traced under axis_env=[(batch, D)] is evaluated SPMD (one symbolic '
          'evaluator per device, axis_index/psum/all_gather with collective semantics) on replicated symbolic inputs and every device\'s updates and new state '
          'are proved equal to the D=1 evaluation for all values (full, int16-quantized, low-rank-compressed preconditioners; N mod D covering all residues); '
-         'sharded variant: declared num_devices_for_pjit = D versus 1. Violations are replayed with real jax.pmap over forced host devices.',
+         'sharded variant: declared num_devices_for_pjit = D versus 1; generate_training_metrics on and off. Violations are replayed with real jax.pmap over forced host devices (benign histories and histories with a NaN / overflowing gradient for one parameter).',
     note='Roots are uninterpreted functions of the unpadded block (padding invariance assumed); D <= 3 quick / <= 5 thorough, N <= 9; sharded mode uses a '
          'one-device mesh (declared device count only drives padding).',
     design='§3 C13', technique='SPMD symbolic evaluation of the axis_env jaxpr to SMT, z3'),
@@ -93,7 +93,7 @@ CLAIMED = {
   'C09': dict(
     text='Bounded SMT verification (exact reals) of the frequent-directions step identities on the jaxprs of the three real step functions (tearfree Sketchy, OCO, '
          'Distributed Shampoo FD root) with svd/qr stubbed: SVD input satisfies M M^T = b V diag(l) V^T + G G^T, new eigenvalues s_i^2 - s_k^2 (clamped, >= 0), new '
-         'directions = top-k singular vectors or zero, escaped mass t\' = b t + s_k^2, stored inverse roots (l\'+t\'+eps)^(-1/p), for all sketch states and gradients; '
+         'directions = top-k singular vectors or zero, escaped mass t\' = b t + s_k^2, stored inverse roots (l\'+t\'+eps)^(-1/p), for all sketch states and gradients; the DS statistics factor (frequent_directions_update) has the Gram matrix of the gradient unfolded along the preconditioned axis for every axis of rank-2..4 blocks; '
          'found (now fixed) the sqrt(b) discount of the escaped mass in Sketchy. Replays iterate the real step over histories against the exact float64 covariance.',
     note='The PSD bracket itself is NOT a solver query (z3 unknown): it follows from the identities by the textbook FD lemma stated in evidence; SVD contract = ordering '
          '(+ unit-norm left vectors for DS); d <= 5, k <= 3; float safeguards of the DS routine outside the exact-SVD case not covered.',
@@ -111,25 +111,25 @@ CLAIMED = {
          'padding and error = max|M - I_masked| (so in exact arithmetic the reported error EQUALS the residual at loop exit); the initial carry satisfies the invariant; '
          'the convergence blend returns H or the old H and the reported error bounds the residual of what is returned; the eigh variant is symmetric; one power-iteration '
          'step gives a Rayleigh quotient below every upper bound of the spectrum; all-padding input returns exactly 0; for the LOBPCG-deflated variant (eigenpair routine and '
-         'loops cut to arbitrary outputs) the reported error and diagnostics are max|X^p(A+ridge I)-I| of the returned X against the original matrix.',
+         'loops cut to arbitrary outputs) the reported error and diagnostics are max|X^p(A+ridge I)-I| of the returned X against the original matrix. A clamp that is redundant in exact arithmetic (eigenvalues below the ridge) is covered only by the float replay (rank-1 statistics, ridge 1e-10 / 1e-30), which is also run when symbolic evaluation stops with an exception.',
     note='ONLY the exact-arithmetic part of the property: rounding slack proportional to the condition number, convergence within 100 iterations, the quality of LOBPCG eigenpairs and '
          'dtype are declined (floating-point iterative linear algebra); n <= 3, p <= 4; X^p(A+dI)=I for the eigh variant is stretch (z3 unknown).',
     design='§3 C01', technique='jaxpr->SMT symbolic evaluation of loop bodies (inductive invariant), z3 nlsat'),
   'C11': dict(
     text='Bit-precise QF_FP verification (float32 with flush-to-zero as XLA:CPU executes; cvc5 + z3 raced per query) of the jaxprs of the real QuantizedValue.quantize / '
          'to_float for EVERY finite float32 column of m rows: stored integers within +-127 / +-32767 (no wrap), round trip within bucket/2 + 2 ulp(maxabs), zeros and the '
-         'extracted diagonal exact, re-quantisation reproduces the same integers; XLA:CPU lowers divisions by constants / broadcast operands as reciprocal multiplications '
+         'extracted diagonal exact, re-quantisation reproduces the same integers; with extract_diagonal the off-diagonal entries of an arbitrary (not necessarily symmetric) 2x2 matrix never wrap (Q1diag); XLA:CPU lowers divisions by constants / broadcast operands as reciprocal multiplications '
          '(found by the translator validation V0: 1 ulp), so every such division is modelled as either lowering and each obligation holds for all assignments; V0 compares the '
          'encoding with the real code bit for bit (op-by-op and jitted) on boundary and random inputs; four genuine boundary defects (max-abs = FLT_MAX overflows to inf; max-abs below 127*2^-126 flushes to 0; '
          'subnormal diagonal entries flushed; a subnormal entry next to a bucket below 2^-125 flushed) are recorded as known findings, excluded by assumption and re-confirmed by replay on every run.',
-    note='m <= 2 rows per column in the quick tier (3 thorough); bfloat16 mode not encoded; columns independent (the jaxpr reduces over axis 0 only); no FMA contraction.',
+    note='m <= 2 rows per column in the quick tier (3 thorough); half-bucket and re-quantisation under extract_diagonal are attempted (thorough, stretch) but not claimed; bfloat16 mode not encoded; columns independent (the jaxpr reduces over axis 0 only); no FMA contraction.',
     design='§3 C11', technique='jaxpr->SMT in QF_FP (bit-precise float32 with FTZ), cvc5/z3 portfolio'),
   'C17': dict(
     text='Path-wise symbolic execution of the REAL create_redist_dict (its source executed with int/min/max/sum shadowed by proxy-aware versions) with bit-precise float32 '
          'scores: per explored path one QF_BVFP query (float arithmetic first abstracted to fresh values, then bit-precise) decides whether some scores make it raise, assign '
          'a rank outside [1, dim] or exceed group size x base rank; found (now fixed) the leftover-loop over-allocation and a float-cancellation assertion failure; models are '
          'replayed on the real function.',
-    note='One group of n <= 2 (thorough 3) equal-dimension axes, dims <= 16, plus layers with two axes forming 2-3 groups of different dimension; scoring rules and checkpoint I/O stubbed; branch feasibility during exploration is decided by '
+    note='One group of n <= 2 (thorough 3) equal-dimension axes with all scores free, 3-4 axes (thorough 5) with tied / all-zero score patterns, dims <= 16, plus layers with two axes forming 2-3 groups of different dimension; scoring rules and checkpoint I/O stubbed; branch feasibility during exploration is decided by '
          'concrete witnesses or cvc5 (unknown = explored).',
     design='§3 C17', technique='forking proxy symbolic execution of Python with QF_BVFP path queries (cvc5)'),
 }
